@@ -57,7 +57,7 @@ func (f *Font) Write(w io.Writer) (int64, error) {
 	var maxpTtf *maxp.TTFInfo
 	switch outlines := f.Outlines.(type) {
 	case *cff.Outlines:
-		cffData, err := f.makeCFF(outlines)
+		cffData, err := f.makeCFF(outlines, true)
 		if err != nil {
 			return 0, err
 		}
@@ -148,7 +148,7 @@ func (f *Font) WriteOpenTypeCFFPDF(w io.Writer) error {
 	}
 
 	outlines := f.Outlines.(*cff.Outlines)
-	cffData, err := f.makeCFF(outlines)
+	cffData, err := f.makeCFF(outlines, false)
 	if err != nil {
 		return err
 	}
@@ -317,8 +317,15 @@ func (f *Font) makePost() []byte {
 	return postInfo.Encode()
 }
 
-func (f *Font) makeCFF(outlines *cff.Outlines) ([]byte, error) {
+// makeCFF encodes the "CFF " table.  If the file also gets a "post" table,
+// which stores the underline metrics as integers and takes precedence when
+// the file is read, the CFF table carries the same (rounded) values.
+func (f *Font) makeCFF(outlines *cff.Outlines, withPost bool) ([]byte, error) {
 	fontInfo := f.GetFontInfo()
+	if withPost {
+		fontInfo.UnderlinePosition = funit.Float64(math.Round(float64(f.UnderlinePosition)))
+		fontInfo.UnderlineThickness = funit.Float64(math.Round(float64(f.UnderlineThickness)))
+	}
 	myCff := &cff.Font{
 		FontInfo: fontInfo,
 		Outlines: outlines,
